@@ -219,6 +219,33 @@ pub fn run_auth(args: &Args) -> (u64, u64) {
             }
         }
     }
+    // consecutive logins (same thread) for RELATED user names: permutations across positions 8 apart / 4 apart,
+    // halves swapped, rotations, repeated halves, one name a prefix of the other, same name with another password -
+    // no state may be carried from one login into the next
+    {
+        let fams: Vec<Vec<&str>> = vec![
+            vec!["ABCDEFGHIJ", "IBCDEFGHAJ", "AJCDEFGHIB"],
+            vec!["12345678ABCDEFGH", "ABCDEFGH12345678", "1234ABCD5678EFGH"],
+            vec!["ABCDABCDABCDABCD", "AAAAAAAAAAAAAAAA", "ABABABABABABABAB", "ABCDEFGHABCDEFGH"],
+            vec!["ROTATE", "OTATER", "TATERO", "ETATOR"],
+            vec!["PRE", "PREFIX", "PREFIXES", "PREFIXESPREFIXES"],
+            vec!["AB", "BA", "A", "B", "AA"],
+        ];
+        for (fi, fam) in fams.iter().enumerate() {
+            h.reset("auth-related-names");
+            for rep in 0..2 {
+                for (ni, name) in fam.iter().enumerate() {
+                    let pass = if rep == 0 { "SAMEPASS".to_string() } else { format!("PW{}{}", fi, ni) };
+                    let prm = Params { user: name, pass: &pass, typed_user: &case_variant(name, ni + rep), typed_pass: &pass, salt: None, b: None, a: None, storage: (ni + rep) % 2 == 0 };
+                    if let Some(mut sess) = honest_login(&mut h, &prm) {
+                        if ni % 2 == 0 {
+                            good_reconnect(&mut h, &mut sess);
+                        }
+                    }
+                }
+            }
+        }
+    }
     // random sessions: random credentials, genuine RNG draws (nothing injected)
     let n = args.n.unwrap_or(if thorough { 20000 } else { 400 });
     for i in 0..n {
@@ -293,6 +320,20 @@ pub fn run_tamper(args: &Args) -> (u64, u64) {
         let Some((_so, _server, m2)) = h.into_server(pc, pp, apub, m1) else { continue };
         let cc = h.clone_event(co);
         h.verify_server_proof(cc, chal.clone(), m2);
+        // directly after the success: the captured (A, M1) replayed against a NEW proof of the same account (new b, B),
+        // against the account after a password change, and against the same record re-imported - all must be refused
+        for variant in 0..3 {
+            let v2 = match variant {
+                0 => h.register(&u, &p, None),
+                1 => h.register(&u, &format!("{}x", &p[..p.len().min(15)]), None),
+                _ => h.register(&u, &p, Some(&salt[..])),
+            };
+            if let Some((vo2, v2)) = v2 {
+                if let Some((po2, proof2)) = h.into_proof(vo2, v2, None) {
+                    h.into_server(po2, proof2, apub, m1);
+                }
+            }
+        }
 
         let all = thorough || bi == 0;
         let step = if all { 1 } else { 7 };
@@ -691,6 +732,47 @@ pub fn run_clientgroups(args: &Args) -> (u64, u64) {
             // the server proof the specification expects is in the scenario; the real client must accept it
             if let Some(m2) = c.get("M2") {
                 h.verify_server_proof(co, chal, a20(&jbytes(m2)));
+            }
+        }
+    }
+    // group hopping: ONE set of credentials and one salt, consecutive logins (same thread) that differ only in the
+    // announced modulus, then only in the generator - nothing computed for one group may be reused for another
+    {
+        let mut groups: Vec<([u8; 32], [u8; 32], [u8; 32])> = vec![];   // (N, B valid for N, a)
+        let mut gens: Vec<u8> = vec![];
+        for c in scen.iter() {
+            let n = arr32(&jbytes(&c["N"]));
+            if !groups.iter().any(|g| g.0 == n) {
+                groups.push((n, arr32(&jbytes(&c["B"])), arr32(&jbytes(&c["a"]))));
+            }
+            let g = c["g"].as_u64().unwrap() as u8;
+            if !gens.contains(&g) {
+                gens.push(g);
+            }
+        }
+        gens.truncate(4);
+        if args.tier != "thorough" {
+            // a spread of small and large groups
+            let keep: Vec<usize> = (0..groups.len()).filter(|i| i % 3 == 0 || *i + 2 >= groups.len()).collect();
+            groups = keep.iter().map(|i| groups[*i]).collect();
+        }
+        if let Some(first) = scen.first() {
+            let salt = arr32(&jbytes(&first["salt"]));
+            let user = jstr_from_cps(&first["user"]);
+            let pass = jstr_from_cps(&first["pass"]);
+            h.reset("clientgroups-hopping");
+            for g in &gens {
+                for (n, bb, a) in &groups {
+                    let Some(bpub) = h.pubkey(*bb) else { continue };
+                    h.client_new(&user, &pass, *g, *n, bpub, salt, Some(a));
+                }
+            }
+            h.reset("clientgroups-hopping");
+            for (n, bb, a) in groups.iter().rev() {
+                for g in &gens {
+                    let Some(bpub) = h.pubkey(*bb) else { continue };
+                    h.client_new(&user, &pass, *g, *n, bpub, salt, Some(a));
+                }
             }
         }
     }
